@@ -17,27 +17,36 @@
           fx_list   the directory listing of Open fails: Open returns an error after
                     MetaStore.Load, the next Open succeeds
           fx_leave  a file creation hit by the counted fault leaves the empty,
-                    unallocated file behind;
+                    unallocated file behind
+          fx_land   a metadata commit or stable write hit by the counted fault
+                    reports the failure although it reached the disk (bbolt: the
+                    meta page is written, the last fdatasync fails);
    the following hold:
      (a) readers of the running process always see exactly the state in which the
-         calls that returned nil are applied and those that returned an error are not;
+         calls that returned nil are applied and those that returned an error are not
+         (only a stable Set that returned an error may show its value);
      (b) a call that returned nil was acceptable to the contiguous-log specification;
      (c) after a restart / reopen the WAL opens (unless a fault was injected into that
          very Open) and presents a member of `candidates alts defer`: each failed call
          applied as a whole (in place, or -- for a failed StoreLogs whose complete
          bytes sit behind the last commit of the tail file -- at restart time) or not
          at all.
-   A failed action other than a creation under fx_leave has no effect on the disk
-   (Model.io); the model does not cover an fsync or metadata commit that reports an
-   error although the data reached the disk.
+   A failed action other than a creation under fx_leave or a BoltDB transaction
+   under fx_land has no effect on the disk (Model.io); the model does not cover an
+   fsync of a segment file that reports an error although the data reached the disk.
+   After ANY failed metadata commit of a state transaction the WAL refuses writes
+   until it is reopened (wal.go mutateStateLocked sets w.failed: the outcome of the
+   commit is unknown); Wal/ModelOld.v keeps the transaction as it was before that
+   repair, example C10_ex_commit_lands_old_refuted shows the acknowledged entry it
+   loses (finding F4).
    Proof architecture: lock-step simulation of the faulty run against the fault-free
    run on a normalised disk (Wal/FaultSim*.v), which transfers the per-action-prefix
    disk invariants of the crash development (Wal/Crash*.v) to the disk a failed call
    leaves (a run whose deletions all fail is the fault-free run stopped before its
    trailing deletions); an invariant FInv (Wal/FaultInv.v) over the process states
    reachable with faults (stale unsynced batch behind a rolled-back writer or in a
-   file that could not be deleted; sealed but unrotated tail; metadata ahead of a WAL
-   that refuses writes; closed handle); Wal/FaultNames.v: a file the metadata does
+   file that could not be deleted; a WAL that refuses writes while the metadata on
+   the disk is the old or already the new one; closed handle); Wal/FaultNames.v: a file the metadata does
    not list is never listed again. *)
 From RW Require Import Base.Bytes Fmt.Codec Fmt.Frame Wal.Model Wal.Spec Wal.Hist Wal.FaultHist Wal.FaultFacts
   Wal.FaultInv Wal.FaultThm Wal.FaultCor Wal.CrashExamples Wal.CrashExamplesFacts Wal.FaultExamples Wal.FaultExamplesFacts
@@ -123,9 +132,18 @@ Print Assumptions C10_candidate_shape.
 (* ------------------------------------------------------------------ *)
 (* the local consequences of an error on which the model's error paths rest *)
 Theorem C10_failed_action_no_effect :
-  forall a e e', io a e = (false, e') -> e_disk e' = e_disk e.
-Proof. exact io_fail_no_effect. Qed.
+  forall a e e', is_txn a = false -> io a e = (false, e') -> e_disk e' = e_disk e.
+Proof. exact io_fail_no_effect_plain. Qed.
 Print Assumptions C10_failed_action_no_effect.
+
+(* a BoltDB transaction (metadata commit, stable write) that fails has no effect or,
+   under fx_land, exactly its effect *)
+Theorem C10_failed_transaction_effect :
+  forall a e e', io a e = (false, e') ->
+    e_disk e' = e_disk e \/
+    (is_txn a = true /\ fx_land (e_fx e) = true /\ e_fault e = Some O /\ e_disk e' = apply_act (e_disk e) a).
+Proof. exact io_fail_no_effect. Qed.
+Print Assumptions C10_failed_transaction_effect.
 
 Theorem C10_failed_create_leaves_at_most_an_empty_file :
   forall si e e', seg_create si e = (None, e') ->
@@ -158,12 +176,13 @@ Theorem C10_failed_force_seal_rolls_back :
 Proof. exact seg_force_seal_error_rolls_back. Qed.
 Print Assumptions C10_failed_force_seal_rolls_back.
 
-Theorem C10_failed_commit_publishes_nothing :
+(* a failed metadata commit publishes nothing and makes the WAL refuse writes *)
+Theorem C10_failed_commit_fails_wal :
   forall w t e e1,
     io (ACommit {| ps_next_id := tx_next_id t; ps_segs := tx_segs t |}) e = (false, e1) ->
-    mutate w t e = (RErrIO, w, e1).
-Proof. exact mutate_commit_failure_publishes_nothing. Qed.
-Print Assumptions C10_failed_commit_publishes_nothing.
+    mutate w t e = (RErrIO, wal_failed w, e1).
+Proof. exact mutate_commit_failure_fails_wal. Qed.
+Print Assumptions C10_failed_commit_fails_wal.
 
 Theorem C10_failed_wal_refuses_writes :
   forall c w ls e, st_closed w = false -> st_failed w = true -> ls <> [] ->
@@ -202,14 +221,14 @@ Example C10_ex_trunc_create_fails :
   = (true, (true, false), RErrFailed, 3, 2, Some 5).
 Proof. vm_compute. reflexivity. Qed.
 
-(* C: the commit of the pending rotation fails: appends are refused (segment sealed) while a
-   head truncation still works; a restart completes the rotation *)
+(* C: the commit of the pending rotation fails: the WAL refuses writes (appends and the
+   head truncation alike) until a restart completes the rotation *)
 Example C10_ex_rotation_commit_fails :
-  (ff_ok cfg128 fh_rotation_commit_fails,
+  (ff_ok cfg128 fh_rotation_commit_fails, ff_flags cfg128 (firstn 3 fh_rotation_commit_fails),
    ff_result cfg128 (firstn 3 fh_rotation_commit_fails) None (OStore [ex_log 3 1]),
-   ff_last cfg128 (firstn 5 fh_rotation_commit_fails),
+   ff_last cfg128 (firstn 5 fh_rotation_commit_fails), ff_first cfg128 (firstn 7 fh_rotation_commit_fails),
    ff_first cfg128 fh_rotation_commit_fails, ff_last cfg128 fh_rotation_commit_fails)
-  = (true, RErrSealed, 2, 2, 3).
+  = (true, (true, false), RErrFailed, 2, 1, 1, 3).
 Proof. vm_compute. reflexivity. Qed.
 
 (* D: a fault inside Open: it fails, every call fails, the next Open succeeds *)
@@ -271,6 +290,36 @@ Example C10_ex_rotate_create_leaves :
   = (true, (true, false), 1%nat, 2%nat, 2, 3, Some 1).
 Proof. vm_compute. reflexivity. Qed.
 
+(* I (finding F4): a tail truncation that drops the tail segment as a whole; its metadata
+   commit reports a failure but has reached the disk.  DeleteRange returns an error, the
+   WAL refuses the next StoreLogs (in-process last index 2: nothing acknowledged is lost,
+   nothing is acknowledged any more); the next Open finds the truncation done (last index 1)
+   and index 2 can be rewritten *)
+Example C10_ex_commit_lands :
+  (ff_ok cfg128 fh_commit_lands, ff_result_fx cfg128 (firstn 2 fh_commit_lands) (Some 2%nat) fx_lands (ODelete 2 2),
+   ff_flags cfg128 (firstn 3 fh_commit_lands),
+   ff_result cfg128 (firstn 3 fh_commit_lands) None (OStore [ex_log 3 1]),
+   ff_last cfg128 (firstn 6 fh_commit_lands), ff_last cfg128 (firstn 8 fh_commit_lands),
+   ff_term cfg128 fh_commit_lands 2, ff_last cfg128 fh_commit_lands)
+  = (true, RErrIO, (true, false), RErrFailed, 2, 1, Some 7, 2).
+Proof. vm_compute. reflexivity. Qed.
+
+(* the same history on the transaction as it was before the repair (Wal/ModelOld.v): the
+   truncation returns an error and the WAL does NOT refuse writes; StoreLogs [3] returns
+   nil (last index 3); after the next Open the last index is 1: entry 3 was acknowledged
+   after the failed call and is gone *)
+Example C10_ex_commit_lands_old_refuted :
+  old_f4_run cfg128 = (RErrIO, false, ROk, 3, 1).
+Proof. vm_compute. reflexivity. Qed.
+
+(* I': a stable Set whose transaction fails and lands: the call returns an error, readers
+   see the new value, before and after a restart *)
+Example C10_ex_set_lands :
+  (ff_ok cfg256 fh_set_lands, ff_result_fx cfg256 (firstn 1 fh_set_lands) (Some 0%nat) fx_lands (OSet [107] [2] false),
+   ff_kv cfg256 (firstn 3 fh_set_lands) [107], ff_kv cfg256 fh_set_lands [107])
+  = (true, RErrIO, [2], [2]).
+Proof. vm_compute. reflexivity. Qed.
+
 (* the example histories satisfy the hypotheses of the theorem *)
 Example C10_ex_hyps :
   fault_hist_ok cfg256 fh_fsync_then_shorter /\ fault_hist_ok cfg256 fh_fsync_then_restart /\
@@ -278,12 +327,13 @@ Example C10_ex_hyps :
   fault_hist_ok cfg128 fh_fault_in_open /\ fault_hist_ok cfg256 fh_misc /\
   fault_hist_ok cfg128 fh_delete_fails /\ fault_hist_ok cfg256 fh_reset_delete_fails /\
   fault_hist_ok cfg128 fh_list_fails /\ fault_hist_ok cfg256 fh_trunc_create_leaves /\
-  fault_hist_ok cfg128 fh_rotate_create_leaves.
+  fault_hist_ok cfg128 fh_rotate_create_leaves /\ fault_hist_ok cfg128 fh_commit_lands /\
+  fault_hist_ok cfg256 fh_set_lands.
 Proof.
   exact (conj fh_fsync_then_shorter_ok (conj fh_fsync_then_restart_ok (conj fh_trunc_create_fails_ok
          (conj fh_rotation_commit_fails_ok (conj fh_fault_in_open_ok (conj fh_misc_ok
          (conj fh_delete_fails_ok (conj fh_reset_delete_fails_ok (conj fh_list_fails_ok
-         (conj fh_trunc_create_leaves_ok fh_rotate_create_leaves_ok)))))))))).
+         (conj fh_trunc_create_leaves_ok (conj fh_rotate_create_leaves_ok (conj fh_commit_lands_ok fh_set_lands_ok)))))))))))).
 Qed.
 
 (* ===== BEGIN block "byte level" (one segment file, Seg/FailFacts.v) =====
